@@ -1,0 +1,19 @@
+//go:build verif
+
+// Contracts for package pebbledb, checked by /verif/govc (comment-only file).
+package pebbledb
+
+// ---- C20: no database inside protected system directories
+//@ pred under(p string, d string) = p == d || hasPrefix(p, d + "/")
+//@ pred inside(p string) = under(p, "/etc") || under(p, "/root") || under(p, "/usr") || under(p, "/bin") || under(p, "/sbin") || under(p, "/boot")
+
+//@ func NewPebbleScanner
+//@   noframe
+//@   loop 1 invariant 0 <= #i && forall t in 0..#i :: !under(absPath, sensitivePrefixes[t])
+//@   ensures [C20.refuse] inside(realPath(dbPath)) ==> result1 != nil
+//@   ensures [C20.nofalse] result1 != nil && hasPrefix(errmsg(result1), "security violation") ==> inside(realPath(dbPath))
+
+//@ func resolveDBLocation
+//@   uses fs
+//@   ensures [C20.resolve] result1 == nil ==> result0 == realPath(dbPath)
+//@   loop 1 invariant realPath(abs) == joinPath(realPath(cur), suffix)
